@@ -667,16 +667,16 @@ func (vc *VC) needOrder() {
 	if vc.declared["bcmp_"] {
 		return
 	}
-	vc.declareFun("bcmp_", []string{"Int", "Int"}, "Int")
-	vc.declareFun("blt_", []string{"Int", "Int"}, "Bool")
-	vc.used["byte-string order: total order axioms over content identities (irreflexive, transitive, total)"] = true
-	vc.addAxiom("(forall ((a Int) (b Int)) (! (and (<= (- 1) (bcmp_ a b)) (<= (bcmp_ a b) 1)) :pattern ((bcmp_ a b))))")
-	vc.addAxiom("(forall ((a Int) (b Int)) (! (= (= (bcmp_ a b) 0) (= a b)) :pattern ((bcmp_ a b))))")
-	vc.addAxiom("(forall ((a Int) (b Int)) (! (= (bcmp_ a b) (- (bcmp_ b a))) :pattern ((bcmp_ a b))))")
-	vc.addAxiom("(forall ((a Int) (b Int)) (! (= (blt_ a b) (< (bcmp_ a b) 0)) :pattern ((blt_ a b))))")
-	vc.addAxiom("(forall ((a Int) (b Int) (c Int)) (! (=> (and (<= (bcmp_ a b) 0) (<= (bcmp_ b c) 0)) (<= (bcmp_ a c) 0)) :pattern ((bcmp_ a b) (bcmp_ b c))))")
-	vc.addAxiom("(forall ((a Int) (b Int) (c Int)) (! (=> (and (< (bcmp_ a b) 0) (<= (bcmp_ b c) 0)) (< (bcmp_ a c) 0)) :pattern ((bcmp_ a b) (bcmp_ b c))))")
-	vc.addAxiom("(forall ((a Int) (b Int) (c Int)) (! (=> (and (<= (bcmp_ a b) 0) (< (bcmp_ b c) 0)) (< (bcmp_ a c) 0)) :pattern ((bcmp_ a b) (bcmp_ b c))))")
+	// The byte-string order is an arbitrary total order on content identities.  Every countable total order embeds
+	// order-preservingly into the rationals, so it is represented by an uninterpreted injective rank ord_ : id -> Real;
+	// only order properties are borrowed from the reals (density makes no discreteness fact available).
+	vc.declared["bcmp_"] = true
+	vc.declared["blt_"] = true
+	vc.decls = append(vc.decls, "(declare-fun ord_ (Int) Real)")
+	vc.decls = append(vc.decls, "(define-fun bcmp_ ((a Int) (b Int)) Int (ite (< (ord_ a) (ord_ b)) (- 1) (ite (= (ord_ a) (ord_ b)) 0 1)))")
+	vc.decls = append(vc.decls, "(define-fun blt_ ((a Int) (b Int)) Bool (< (ord_ a) (ord_ b)))")
+	vc.used["byte-string order: uninterpreted injective rank into the rationals (any total order on content identities)"] = true
+	vc.addAxiom("(forall ((a Int) (b Int)) (! (=> (= (ord_ a) (ord_ b)) (= a b)) :pattern ((ord_ a) (ord_ b))))")
 }
 
 // libInvoke: interface methods of library interfaces with built-in models.
